@@ -20,19 +20,23 @@
      on an attribute position (Q2: xmlquery keeps its attribute index).  Without this guard the
      statement is false of the faithful models: nav_programs_agree_unguarded_refuted; both
      witnesses are replayed on the Go libraries by the harness (summary.extra.reference_quirks)
-     and in both the IDR is the side that follows the XPath data model. *)
+     and in both the IDR is the side that follows the XPath data model: against the reference
+     with these two methods repaired the agreement holds for every program without any guard
+     (nav_programs_agree_repaired), and the repair is invisible inside ref_ok
+     (repair_conservative). *)
 From Coq Require Import List NArith Bool String.
 Import ListNotations.
 From OV Require Import Base.Bytes Base.Tree Model.Nav Proofs.Nav.
 
 (* One step: related positions give equal observations, and every move (and MoveTo) succeeds or
-   fails alike and leads to related positions. *)
-Theorem nav_simulation : forall doc dv iv,
+   fails alike and leads to related positions.  fx = false: xmlquery v1.3.1 as it is, outside its
+   two quirks; fx = true: the repaired reference, unconditionally. *)
+Theorem nav_simulation : forall fx doc dv iv,
   dom_wfb doc = true -> nav_rel doc dv iv ->
-  (forall o, quirk_obs doc dv o = false ->
-     exists v, d_obs doc dv o = Some v /\ i_obs (to_idr doc) iv o = Some v) /\
-  (forall m, quirk_move dv m = false ->
-     exists dv' iv' b, d_move doc dv m = Some (dv', b) /\
+  (forall o, fx = true \/ quirk_obs doc dv o = false ->
+     exists v, d_obs fx doc dv o = Some v /\ i_obs (to_idr doc) iv o = Some v) /\
+  (forall m, fx = true \/ quirk_move dv m = false ->
+     exists dv' iv' b, d_move fx doc dv m = Some (dv', b) /\
                        i_move (to_idr doc) iv m = Some (iv', b) /\ nav_rel doc dv' iv') /\
   (forall dw iw, nav_rel doc dw iw ->
      exists dv' iv' b, d_moveto dv dw = (dv', b) /\ i_moveto iv iw = (iv', b) /\
@@ -43,13 +47,27 @@ Proof. exact nav_simulation. Qed.
    the same result, from every start node. *)
 Theorem nav_programs_agree : forall (R : Type) (p : prog R) doc start,
   dom_wfb doc = true -> valid_start doc start = true -> ref_ok doc p (d_init start) ->
-  run_dom doc p (d_init start) = run_idr (to_idr doc) p (i_init (to_ipath doc start)).
+  run_dom false doc p (d_init start) = run_idr (to_idr doc) p (i_init (to_ipath doc start)).
 Proof. exact nav_programs_agree. Qed.
 
-(* ... and neither binding panics or leaves the tree while doing so. *)
-Theorem nav_no_panic : forall (R : Type) (p : prog R) doc start,
+(* Against the repaired reference (Value() of the document node = its InnerText, MoveToRoot()
+   resets the attribute index) the agreement holds for EVERY program: on Q1 and Q2 the IDR does
+   what the XPath data model says. *)
+Theorem nav_programs_agree_repaired : forall (R : Type) (p : prog R) doc start,
+  dom_wfb doc = true -> valid_start doc start = true ->
+  run_dom true doc p (d_init start) = run_idr (to_idr doc) p (i_init (to_ipath doc start)).
+Proof. exact nav_programs_agree_repaired. Qed.
+
+(* The repair is invisible on executions of xmlquery that stay clear of Q1/Q2. *)
+Theorem repair_conservative : forall (R : Type) (p : prog R) doc start,
   dom_wfb doc = true -> valid_start doc start = true -> ref_ok doc p (d_init start) ->
-  exists r, run_dom doc p (d_init start) = Some r /\
+  run_dom true doc p (d_init start) = run_dom false doc p (d_init start).
+Proof. exact repair_conservative. Qed.
+
+(* ... and neither binding panics or leaves the tree while doing so. *)
+Theorem nav_no_panic : forall (R : Type) (p : prog R) fx doc start,
+  dom_wfb doc = true -> valid_start doc start = true -> in_scope fx doc p (d_init start) ->
+  exists r, run_dom fx doc p (d_init start) = Some r /\
             run_idr (to_idr doc) p (i_init (to_ipath doc start)) = Some r.
 Proof. exact nav_no_panic. Qed.
 
@@ -62,9 +80,9 @@ Theorem nav_programs_agree_unguarded_refuted :
   exists doc start,
     dom_wfb doc = true /\ valid_start doc start = true /\
     (exists p : prog obs,
-       run_dom doc p (d_init start) <> run_idr (to_idr doc) p (i_init (to_ipath doc start))) /\
+       run_dom false doc p (d_init start) <> run_idr (to_idr doc) p (i_init (to_ipath doc start))) /\
     (exists p : prog bool,
-       run_dom doc p (d_init start) <> run_idr (to_idr doc) p (i_init (to_ipath doc start))).
+       run_dom false doc p (d_init start) <> run_idr (to_idr doc) p (i_init (to_ipath doc start))).
 Proof. exact nav_programs_agree_unguarded_refuted. Qed.
 
 (* Non-vacuity: <r xmlns:a="u" k="1" a:k="2">t<a:x id="7">in</a:x><y/></r>; a program that walks
@@ -106,7 +124,7 @@ Example ex_result :
 Proof. vm_compute. reflexivity. Qed.
 
 Example ex_agree :
-  run_dom ex_doc (trace_prog ex_ops []) (d_init []) =
+  run_dom false ex_doc (trace_prog ex_ops []) (d_init []) =
   run_idr (to_idr ex_doc) (trace_prog ex_ops []) (i_init (to_ipath ex_doc [])).
 Proof.
   destruct ex_in_scope as (H1 & H2 & H3). exact (nav_programs_agree _ _ _ _ H1 H2 H3).
